@@ -59,6 +59,22 @@ func genQuote(n int) {
 		if w != "" {
 			emitQ(f+":"+esc(w), "", "rel=C08e;f="+hx(f)+";w="+hx(w))
 		}
+		// the same quoted value in other positions: comparison, range bounds, value list, under a default field
+		if !strings.Contains(w, `"`) {
+			qw := `"` + w + `"`
+			switch rng.Intn(5) {
+			case 0:
+				emitQ(f+":>"+qw, "", "rel=C08c;w="+hx(w))
+			case 1:
+				emitQ(f+":["+qw+" TO "+qw+"]", "", "rel=C08c;w="+hx(w))
+			case 2:
+				emitQ(f+":("+qw+" OR "+qw+")", "", "rel=C08c;w="+hx(w))
+			case 3:
+				emitQ(qw+" AND "+f+":<="+qw, "df", "rel=C08c;w="+hx(w))
+			default:
+				emitQ("NOT "+f+":{"+qw+" TO *}", "", "rel=C08c;w="+hx(w))
+			}
+		}
 	}
 }
 
@@ -472,5 +488,116 @@ func genInject(n int) {
 			q = vw
 		}
 		emitQ(q, df, "src=inject")
+	}
+}
+
+// ---- C03: trees of the filterable fragment ---------------------------------------------------------------------
+// field-scoped equality, comparisons, ranges (bounds of one type, every bound kind x inclusivity), value lists, wildcard
+// patterns, combined with AND, OR, NOT, +, - and parentheses. Each field keeps one type (number or string) in a query.
+
+var semNumFields = []string{"n", "qty", "n2"}
+var semStrFields = []string{"s", "name", "t_1"}
+var semInts = []string{"5", "-3", "0", "42", "007", "100", "9223372036854775807", "-9223372036854775808", "8", "16"}
+var semDecs = []string{"2.5", "0.5", "0.125", "-7.25", "1.5", "100.25", "3.0", "1e3", "0.75"}
+var semStrs = []string{"b", "foo", "bar9", `"q r"`, `"it's"`, `"a,b"`, `""`, `"x y z"`, "été", `"Z"`, "a.b", `"(p)"`, `"5"`, `"o'k, then"`, `"%"`, `"under_score"`}
+var semPats = []string{"w*", "?x", "a*b?c", "f*o", "*a", "?", "b*", "*n*", "ab?d*", "a_b*", "x%*"}
+
+func semNum() string {
+	if rng.Intn(3) == 0 {
+		return pick(semDecs)
+	}
+	return pick(semInts)
+}
+
+func semLeaf() *qt {
+	if rng.Intn(2) == 0 {
+		f := pick(semNumFields)
+		switch rng.Intn(8) {
+		case 0, 1:
+			return &qt{kind: "fv", toks: []string{f, ":", semNum()}}
+		case 2:
+			return &qt{kind: "cmp", toks: []string{f, ":", pick([]string{">", "<"}), "", semNum()}}
+		case 3:
+			return &qt{kind: "cmp", toks: []string{f, ":", pick([]string{">", "<"}), "=", semNum()}}
+		case 4, 5:
+			lo, hi := semNum(), semNum()
+			if rng.Intn(2) == 0 { // same type for both bounds
+				lo, hi = pick(semInts), pick(semInts)
+			}
+			if rng.Intn(5) == 0 {
+				lo = "*"
+			} else if rng.Intn(5) == 0 {
+				hi = "*"
+			}
+			if rng.Intn(2) == 0 {
+				return &qt{kind: "range", toks: []string{f, ":", "[", lo, "TO", hi, "]"}}
+			}
+			return &qt{kind: "range", toks: []string{f, ":", "{", lo, "TO", hi, "}"}}
+		default:
+			n := 2 + rng.Intn(3)
+			var v *qt = &qt{kind: "term", toks: []string{semNum()}}
+			for i := 1; i < n; i++ {
+				v = mk("or", v, &qt{kind: "term", toks: []string{semNum()}})
+			}
+			return &qt{kind: "fe", toks: []string{f, ":"}, kids: []*qt{v}}
+		}
+	}
+	f := pick(semStrFields)
+	switch rng.Intn(9) {
+	case 0, 1:
+		return &qt{kind: "fv", toks: []string{f, ":", pick(semStrs)}}
+	case 2, 3:
+		return &qt{kind: "fv", toks: []string{f, ":", pick(semPats)}}
+	case 4:
+		return &qt{kind: "cmp", toks: []string{f, ":", pick([]string{">", "<"}), pick([]string{"", "="}), pick(semStrs)}}
+	case 5, 6:
+		lo, hi := pick(semStrs), pick(semStrs)
+		if rng.Intn(5) == 0 {
+			lo = "*"
+		} else if rng.Intn(5) == 0 {
+			hi = "*"
+		} else if rng.Intn(20) == 0 {
+			lo, hi = "*", "*"
+		}
+		if rng.Intn(2) == 0 {
+			return &qt{kind: "range", toks: []string{f, ":", "[", lo, "TO", hi, "]"}}
+		}
+		return &qt{kind: "range", toks: []string{f, ":", "{", lo, "TO", hi, "}"}}
+	default:
+		n := 2 + rng.Intn(3)
+		var v *qt = &qt{kind: "term", toks: []string{pick(semStrs)}}
+		for i := 1; i < n; i++ {
+			v = mk("or", v, &qt{kind: "term", toks: []string{pick(semStrs)}})
+		}
+		return &qt{kind: "fe", toks: []string{f, ":"}, kids: []*qt{v}}
+	}
+}
+
+func semTree(depth int) *qt {
+	if depth == 0 || rng.Intn(4) == 0 {
+		return semLeaf()
+	}
+	switch rng.Intn(10) {
+	case 0, 1, 2:
+		return mk("and", semTree(depth-1), semTree(depth-1))
+	case 3, 4, 5:
+		return mk("or", semTree(depth-1), semTree(depth-1))
+	case 6:
+		return mk("not", semTree(depth-1))
+	case 7:
+		return mk("must", semTree(depth-1))
+	case 8:
+		return mk("mustnot", semTree(depth-1))
+	}
+	return par(semTree(depth - 1))
+}
+
+func genSem(n int) {
+	for i := 0; i < n; i++ {
+		t := semTree(rng.Intn(4))
+		if rng.Intn(4) == 0 {
+			t = addPars(t, 0.2)
+		}
+		emitQ(join(t.words(func() bool { return rng.Intn(4) == 0 }), rng.Intn(2)), "", "src=sem")
 	}
 }
